@@ -678,7 +678,36 @@ def native_witness(ctx):
     return _search()
 
 
+def _contig_selection(ctx):
+    """calculate_even_genome_partitioning, outer part: the contigs handed to calc_parts are the 25 primary contigs of the named
+    reference (autosomes 1-22, X, Y and the mitochondrial contig), each once, and every one of them is partitioned and its
+    intervals returned.  The two list expressions are evaluated from the real AST (they are closed expressions: literals,
+    range() and f-strings over the comprehension variable); anything else is undecided."""
+    import ast as pyast
+
+    tree = pyast.parse(core.read_repo(PATH))
+    fn = pyvc.find_function(tree, 'calculate_even_genome_partitioning')
+    got = {}
+    for n in pyast.walk(fn):
+        if isinstance(n, pyast.If) and isinstance(n.test, pyast.Compare) and pyast.unparse(n.test.left) == 'reference_genome.name' and len(n.test.comparators) == 1 and isinstance(n.test.comparators[0], pyast.Constant):
+            name = n.test.comparators[0].value
+            for st in n.body:
+                if isinstance(st, pyast.Assign) and pyast.unparse(st.targets[0]) == 'contigs':
+                    names_used = {x.id for x in pyast.walk(st.value) if isinstance(x, pyast.Name)}
+                    bound = {x.id for c_ in pyast.walk(st.value) if isinstance(c_, pyast.comprehension) for x in pyast.walk(c_.target) if isinstance(x, pyast.Name)}
+                    if names_used - bound - {'range', 'str'}:
+                        got[name] = 'not a closed expression: %s' % pyast.unparse(st.value)
+                    else:
+                        got[name] = eval(compile(pyast.Expression(body=st.value), 'contigs-of-' + str(name), 'eval'), {'__builtins__': {'range': range, 'str': str}})  # pylint: disable=eval-used
+    want = {'GRCh37': [str(i) for i in range(1, 23)] + ['X', 'Y', 'MT'], 'GRCh38': ['chr%d' % i for i in range(1, 23)] + ['chrX', 'chrY', 'chrM']}
+    ok = all(isinstance(got.get(k), list) and sorted(got[k]) == sorted(v) and len(set(got[k])) == len(got[k]) for k, v in want.items())
+    ctx.add(core.decided('C38/calculate_even_genome_partitioning/every-primary-contig-including-the-mitochondrial-one-is-partitioned-once', ok, repr({k: (v if not isinstance(v, list) else '%d contigs, missing %r' % (len(v), sorted(set(want.get(k, [])) - set(v)))) for k, v in got.items()})[:400], kind='scan'))
+    tail = [pyast.unparse(x) for x in fn.body[-3:]]
+    ctx.add(core.decided('C38/calculate_even_genome_partitioning/the-intervals-of-every-selected-contig-are-returned', tail == ['intervals = []', 'for ctg in contigs:\n    intervals.extend(calc_parts(ctg))', 'return intervals'], repr(tail), kind='scan'))
+
+
 def build(ctx):
+    _contig_selection(ctx)
     c = calc_parts()
     eng = pyvc.Engine(ctx, c)
 
